@@ -239,18 +239,25 @@ class FileSplicer:
         if spec_txt:
             self.ed.insert(src.t(it.body_open).start, spec_txt)
 
+        canary_txt = ''
         # ---- vacuity canary (separate run): `assert(false)` at the entry of the fn must FAIL, else its precondition (or the assumptions
         # in scope) is contradictory and everything below would verify vacuously
         if getattr(self, 'canary', False) and not getattr(self, 'degrading', False) and it.body_open >= 0 and not any(x.word == 'attr' and 'external_body' in x.text for x in subs):
             cid = 'C00.canary.%d' % len(self.report.setdefault('canaries', []))
             self.report['canaries'].append({'id': cid, 'fn': key, 'file': self.fs.path})
-            self.ed.insert(src.t(it.body_open).end, '\n/*@blk*/proof { /*@ob %s*/ assert(false); }/*@endblk*/\n' % cid)
+            canary_txt = '\n/*@blk*/proof { /*@ob %s*/ assert(false); }/*@endblk*/\n' % cid
+            if not any(x.word == 'prologue' for x in subs):
+                self.ed.insert(src.t(it.body_open).end, canary_txt); canary_txt = ''
 
+        pred_defs = ''
         # ---- prologue / epilogue
         for s in subs:
             if s.word == 'prologue':
-                t, ids = mark_obligations(s.text); clause_ids += ids
-                self.ed.insert(src.t(it.body_open).end, '\n' + t + '\n')
+                # leading `hide(..);` lines are Verus headers and must stay the first statements of the body
+                tl = s.text.split('\n'); head = []
+                while tl and (tl[0].strip().startswith('hide(') or not tl[0].strip()): head.append(tl.pop(0))
+                t, ids = mark_obligations('\n'.join(tl)); clause_ids += ids
+                self.ed.insert(src.t(it.body_open).end, '\n' + '\n'.join(head) + '\n' + canary_txt + pred_defs + t + '\n'); canary_txt = ''   # (a second prologue gets none)
             if s.word == 'epilogue':
                 t, ids = mark_obligations(s.text); clause_ids += ids
                 self.ed.insert(src.t(it.body_close).start, '\n' + t + '\n')
@@ -416,7 +423,8 @@ class FileSplicer:
 
         # ---- closures: N6 (parameter patterns) + N15 (closure contracts)
         closures = self.find_closures(it)
-        for s in subs:
+        selected_closures = set()
+        for s in sorted(subs, key=lambda x: 0 if x.word == 'closure' else 1):     # explicit closure contracts first, then N22 for the rest
             if s.word == 'closure':
                 sel = s.args[0]
                 if sel.startswith('in:'):
@@ -452,6 +460,7 @@ class FileSplicer:
                     if ci >= len(closures):
                         raise SpliceError('lost anchor: fn %s closure %d (has %d)' % (key, ci, len(closures)))
                     (p_open, p_close, b_start, b_end, is_block) = closures[ci]
+                selected_closures.add(p_open)
                 kv = dict(a.split('=', 1) for a in s.args[1:] if '=' in a)
                 if 'params' in kv:
                     self.ed.replace(src.t(p_open).end, src.t(p_close).start, kv['params']); applied.append('N6')
@@ -463,6 +472,20 @@ class FileSplicer:
                 else:
                     self.ed.insert(src.t(p_close).end, ' ' + t + ' { ' + pre + ' ')
                     self.ed.insert(src.t(b_end).end, ' }')
+            if s.word == 'predclosures':
+                # N22: every expression-bodied closure of this fn that has no `closure` directive of its own and takes one untyped
+                # identifier gets the parameter type given here and the contract "returns its body": `|b| E` ->
+                # `|b: T| -> (vx_o: bool) ensures vx_o == (E) { E }`. The body text is copied, not interpreted; a body Verus cannot
+                # read as a spec expression is rejected by Verus (=> this fn is degraded, never an alarm).
+                ptype = s.args[0]
+                for ci, (p_open, p_close, b_start, b_end, is_block) in enumerate(closures):
+                    if p_open in selected_closures or is_block: continue
+                    if p_close != p_open + 2 or src.t(p_open + 1).kind != 'ident': continue
+                    body = src.text_of(b_start, b_end + 1)
+                    self.ed.insert(src.t(p_open + 1).end, ': ' + ptype)
+                    self.ed.insert(src.t(p_close).end, ' -> (vx_o: bool) ensures vx_o == (' + body + ') { ')
+                    self.ed.insert(src.t(b_end).end, ' }')
+                    applied.append('N22')
             if s.word == 'foriter':
                 li = int(s.args[0]); name = s.args[1]
                 if li >= nloops or an.loops[li].kind != 'for':
